@@ -372,7 +372,21 @@ class Executor:
                 # v is "some subclass of K": could still be an instance of a more specific class
                 cand = [c for c in classes if any(issubclass(c, k) for k in v.cls_set)]
                 if cand:
-                    raise Unsupported(f'isinstance({v.label}: subclass-of {v.cls_set}, {classes}) undetermined')
+                    # an object known only as "some subclass of K" tested against a more specific class: both answers are possible -> fork
+                    neg = getattr(v, 'neg', ())
+                    cand = [c for c in cand if not any(issubclass(c, n_) for n_ in neg)]
+                    if not cand:
+                        return False
+                    k = self.choose(2, f'isinstance({v.label},{"|".join(c.__name__ for c in cand)})', ['T', 'F'])
+                    if k == 0:
+                        j = 0 if len(cand) == 1 else self.choose(len(cand), f'which({v.label})', [c.__name__ for c in cand])
+                        old = v.cls_set
+                        v.cls_set = frozenset({cand[j]})
+                        self.push_undo(lambda: setattr(v, 'cls_set', old))
+                        return True
+                    v.neg = tuple(neg) + tuple(cand)
+                    self.push_undo(lambda: setattr(v, 'neg', neg))
+                    return False
             if yes and no:
                 old = v.cls_set
                 k = self.choose(2, f'isinstance({v.label},{"|".join(c.__name__ for c in classes)})', ['T', 'F'])
